@@ -190,6 +190,32 @@ def r_acct(F, V):
                 else:
                     R.violation(key, body, "growth_left is recomputed as <something> - items where <something> is not bucket_mask_to_capacity(bucket_mask) (sources: %s): the reserve of EMPTY slots that ends every probe is lost" % sorted(set(calls)), line=line_of(body, stmt=gs))
                     R.inst(key, "capacity not from bucket_mask_to_capacity", "violation", True, where(body, stmt=gs))
+    # ---- (h) erase looks at the group *before* the slot modulo the table size
+    eb = F.bodies.get("raw::RawTableInner::erase")
+    if eb is not None:
+        from rules.arith import cls
+        idxs = []
+        for i, t in eb.calls():
+            if "Group::load" in (callee_path(t) or "") and t["args"] and t["args"][0]["k"] in ("copy", "move"):
+                # pointer comes from ctrl(x)
+                r = eb.root_of_place(t["args"][0]["p"])[0]
+                d = eb.single_def(r)
+                seen = 0
+                while d and d[0] == "stmt" and seen < 6:
+                    seen += 1
+                    ops = rv_operands(d[3]["rv"])
+                    if not ops or ops[0]["k"] not in ("copy", "move"):
+                        break
+                    r = eb.root_of_place(ops[0]["p"])[0]
+                    d = eb.single_def(r)
+                if d and d[0] == "call" and (callee_path(d[3]) or "").endswith("RawTableInner::ctrl"):
+                    idxs.append(cls(eb, d[3]["args"][1]))
+        key = "raw::RawTableInner::erase|window"
+        if len(idxs) >= 2 and any(c.startswith("PARAM:") for c in idxs) and any(c == "MASKED" for c in idxs):
+            R.inst(key, "erase inspects the group at the slot and the group before it modulo the table size (%s)" % idxs, "ok", True, where(eb))
+        else:
+            R.violation(key, eb, "erase must look at the group starting at the slot and at the group WIDTH positions before it *modulo the table size* (index classes found: %s): near the start of the table the wrong bytes decide between EMPTY and DELETED, cutting probe chains" % idxs)
+            R.inst(key, "erase window not modular", "violation", True, where(eb))
     # ---- (g) balance: special-tag stores vs FULL stores vs items +-1 along every path
     nbal = _balance(F, V, R)
     R.floor("items += 1 sites", n_inc, {"posctl": 0}.get(F.cfg, 3))
